@@ -170,6 +170,17 @@ def r18_5(rep, M, rid):
                 rep.violation(rid, "classify: early exit of the seed loop", f"`break` under `{norm(conds[0][0].test) if conds else 'no test'}`: the loop stops while species are "
                               "still waiting for their seed (after the first atom), so only the element nearest to the centre of mass is ever used as seed and the other "
                               "slab / the adsorbate-covered side is never searched", M.where(FQ, br))
+    # the centre-of-mass ordering is the branch of seed_position == "cm" (the default)
+    at_sort = fl.node_of(srt)
+    disp = [(t, pol) for t, pol in fl.cfg.branch_conditions(at_sort) if isinstance(getattr(t, "test", None), ast.Compare) and "seed_position" in norm(t.test)
+            and any(isinstance(x, ast.Constant) and x.value == "cm" for x in ast.walk(t.test))]
+    if disp:
+        t, pol = disp[-1]
+        if (isinstance(t.test.ops[0], ast.Eq) and pol) or (isinstance(t.test.ops[0], ast.NotEq) and not pol):
+            rep.ok(rid, "classify: the centre-of-mass seeds are used when seed_position == 'cm'")
+        else:
+            rep.violation(rid, f"classify: `{norm(t.test)}`", "the centre-of-mass ordering runs when seed_position is *not* 'cm': a default-constructed Classifier takes the "
+                          "branch for explicit positions with the string 'cm'", M.where(FQ, t))
     # the reference point is computed on the wrapped working copy
     arg = com[0].args[0] if com[0].args else None
     inp = M.params(FQ)[0]
@@ -216,6 +227,11 @@ def r18_6(rep, M, rid):
     inits = {f: [s2.value.value for s2 in ast.walk(fn) if isinstance(s2, ast.Assign) and isinstance(s2.targets[0], ast.Name) and s2.targets[0].id == f
                  and isinstance(s2.value, ast.Constant) and not any(s2 is b for t in ast.walk(fn) if isinstance(t, ast.If) for b in t.body)] for f in (fp, fn_)}
     conj = {x.id for t in both for x in t.test.values if isinstance(x, ast.Name)} if both else set()
+    disj = [t for t in ast.walk(fn) if isinstance(t, ast.If) and isinstance(t.test, ast.BoolOp) and isinstance(t.test.op, ast.Or)
+            and {x.id for x in t.test.values if isinstance(x, ast.Name)} == {fp, fn_}]
+    if disj:
+        rep.violation(rid, f"get_connected_directions: `{norm(disj[0].test)}`", "a test on the two findings is a disjunction: the scan of a unit's edges stops (or the direction is "
+                      "marked) as soon as one of +d / -d was seen, so the other one is never found", M.where(fq, disj[0]))
     if vp is True and vn is True and inits[fp] == [False] and inits[fn_] == [False] and fp != fn_ and (not both or conj == {fp, fn_}):
         rep.ok(rid, f"get_connected_directions: `{fp}` / `{fn_}` start False for every direction and are raised by the +d / -d test respectively")
     else:
